@@ -353,3 +353,1379 @@ def both_arms_raise(mod: Module, ifn: ast.If) -> bool:
             i = [k for k, x in enumerate(blk) if x is ifn][0]
             return i + 1 < len(blk) and isinstance(blk[i + 1], ast.Raise)
     return False
+
+
+# =========================================================================== rules p - t (third batch)
+
+# --------------------------------------------------------------------------- p: what a yielded element depends on
+
+def _target_names(t: ast.AST) -> set[str]:
+    return {n.id for n in ast.walk(t) if isinstance(n, ast.Name)}
+
+
+def mentions(e: ast.AST, names: set[str]) -> bool:
+    return any(isinstance(n, ast.Name) and n.id in names for n in ast.walk(e))
+
+
+def plainly_derived(fn: ast.AST, seeds: set[str]) -> set[str]:
+    """Names that hold (a part of / a function of) one of `seeds` through plain assignment: x = f(seed), (a, b) = seed,
+    x += seed, x := seed - closed transitively.  Loop and comprehension targets are NOT included: an element drawn from an
+    enumeration is a different thing from the selector the enumeration was given."""
+    out = set(seeds)
+    changed = True
+    while changed:
+        changed = False
+        for n in own_nodes(fn, include_nested=True):
+            tgts: list[ast.AST] = []
+            val = None
+            if isinstance(n, ast.Assign):
+                tgts, val = list(n.targets), n.value
+            elif isinstance(n, (ast.AnnAssign, ast.AugAssign, ast.NamedExpr)):
+                tgts, val = [n.target], n.value
+            if val is None or not mentions(val, out):
+                continue
+            new = set()
+            for t in tgts:
+                new |= _target_names(t)
+            if not new <= out:
+                out |= new
+                changed = True
+    return out
+
+
+def yield_dependence(mod: Module, fn: ast.AST, y: ast.AST, names: set[str]) -> Optional[str]:
+    """Why the element produced at `y` is restricted by the value of one of `names`: it is computed from it, it is drawn from an
+    enumeration (enclosing for / comprehension) whose iterable received it, or it is produced under a test of it.  None if
+    nothing of the kind encloses y."""
+    val = getattr(y, "value", None)
+    if val is not None and mentions(val, names):
+        return "computed from it"
+    for p in mod.parents(y):
+        if isinstance(p, (ast.For, ast.AsyncFor)) and mentions(p.iter, names):
+            return "drawn from %s" % norm(p.iter)[:60]
+        if isinstance(p, (ast.ListComp, ast.SetComp, ast.GeneratorExp, ast.DictComp)):
+            for g in p.generators:
+                if mentions(g.iter, names) or any(mentions(i, names) for i in g.ifs):
+                    return "drawn from %s" % norm(g.iter)[:60]
+        if isinstance(p, (ast.If, ast.While, ast.IfExp)) and mentions(p.test, names):
+            return "under the test %s" % norm(p.test)[:60]
+        if p is fn:
+            break
+    return None
+
+
+# --------------------------------------------------------------------------- q: a graph NAME reaching the store
+
+class SinkScenario(Scenario):
+    """Scenario execution that also records the calls accepted by `is_sink` which receive the scenario object as an argument."""
+
+    def __init__(self, fn: ast.FunctionDef, param: str, self_name: str,
+                 class_verdict: Callable[[str], Optional[bool]], is_sink: Callable[[ast.Call], bool]):
+        self.is_sink = is_sink
+        self.sink_hits: list[ast.Call] = []
+        super().__init__(fn, param, self_name, class_verdict)
+
+    def _own_exprs(self, s: ast.stmt) -> Iterator[ast.AST]:
+        for _f, v in ast.iter_fields(s):
+            vs = v if isinstance(v, list) else [v]
+            for x in vs:
+                if isinstance(x, ast.stmt) or isinstance(x, ast.ExceptHandler) or isinstance(x, getattr(ast, "match_case", ())):
+                    continue
+                if isinstance(x, ast.withitem):
+                    yield x.context_expr
+                elif isinstance(x, ast.AST):
+                    yield x
+
+    def stmt(self, s: ast.stmt, st: State) -> set:
+        if not isinstance(s, (ast.FunctionDef, ast.AsyncFunctionDef, ast.ClassDef)):
+            for e in self._own_exprs(s):
+                for c in ast.walk(e):
+                    if isinstance(c, ast.Call) and self.is_sink(c):
+                        args = list(c.args) + [k.value for k in c.keywords]
+                        if any(self.may_be_object(a, st) for a in args) and not any(c is h for h in self.sink_hits):
+                            self.sink_hits.append(c)
+        return super().stmt(s, st)
+
+
+def is_store_call_of(recv: str, store_attr: str = "store") -> Callable[[ast.Call], bool]:
+    """<recv>.<store_attr>.<method>(...)"""
+    def f(c: ast.Call) -> bool:
+        fn = c.func
+        return (isinstance(fn, ast.Attribute) and isinstance(fn.value, ast.Attribute) and fn.value.attr == store_attr
+                and isinstance(fn.value.value, ast.Name) and fn.value.value.id == recv)
+    return f
+
+
+# --------------------------------------------------------------------------- r: graph views built directly on a dataset's store
+
+def call_arg(c: ast.Call, pos: int, kw: str) -> Optional[ast.expr]:
+    for k in c.keywords:
+        if k.arg == kw:
+            return k.value
+    if len(c.args) > pos and not any(isinstance(a, ast.Starred) for a in c.args[:pos + 1]):
+        return c.args[pos]
+    return None
+
+
+GRAPH_WRITERS = {"add", "addN", "parse", "__iadd__", "update", "set"}
+
+
+def writes_through(fn: ast.AST, names: set[str]) -> list[ast.AST]:
+    """Statements / calls of fn that add triples through one of the local names: n += ..., n.add(...), n.parse(...), ..."""
+    out: list[ast.AST] = []
+    for n in own_nodes(fn, include_nested=True):
+        if isinstance(n, ast.AugAssign) and isinstance(n.op, ast.Add) and isinstance(n.target, ast.Name) and n.target.id in names:
+            out.append(n)
+        elif (isinstance(n, ast.Call) and isinstance(n.func, ast.Attribute) and n.func.attr in GRAPH_WRITERS
+              and isinstance(n.func.value, ast.Name) and n.func.value.id in names):
+            out.append(n)
+    return out
+
+
+# --------------------------------------------------------------------------- s/t: name-dispatched operation handlers
+
+def name_dispatch(fn: ast.AST, known: Callable[[str], bool]) -> dict[str, str]:
+    """{operation name: handler function name} from the arms `if <x>.name == "K": handler(...)` of fn."""
+    out: dict[str, str] = {}
+    for n in ast.walk(fn):
+        if not (isinstance(n, ast.If) and isinstance(n.test, ast.Compare) and len(n.test.ops) == 1 and isinstance(n.test.ops[0], ast.Eq)):
+            continue
+        l, r = n.test.left, n.test.comparators[0]
+        if isinstance(l, ast.Constant):
+            l, r = r, l
+        if not (isinstance(l, ast.Attribute) and l.attr == "name" and isinstance(r, ast.Constant) and isinstance(r.value, str)):
+            continue
+        for s in n.body:
+            for c in ast.walk(s):
+                if isinstance(c, ast.Call) and isinstance(c.func, ast.Name) and known(c.func.id):
+                    out.setdefault(r.value, c.func.id)
+    return out
+
+
+def union_members(ann: Optional[ast.expr]) -> Optional[list[ast.expr]]:
+    """The alternatives of an annotation that is a plain union (A | B | None, Optional[A], Union[A, B]) of names; None if the
+    annotation is anything else (a container of graphs is not `a graph or a graph name`)."""
+    if ann is None:
+        return None
+    if isinstance(ann, ast.Constant) and isinstance(ann.value, str):
+        try:
+            ann = ast.parse(ann.value, mode="eval").body
+        except SyntaxError:
+            return None
+    if isinstance(ann, ast.BinOp) and isinstance(ann.op, ast.BitOr):
+        l, r = union_members(ann.left), union_members(ann.right)
+        return None if l is None or r is None else l + r
+    if isinstance(ann, ast.Subscript):
+        head = ann.value.attr if isinstance(ann.value, ast.Attribute) else getattr(ann.value, "id", None)
+        if head not in ("Optional", "Union"):
+            return None
+        elts = ann.slice.elts if isinstance(ann.slice, ast.Tuple) else [ann.slice]
+        out: list[ast.expr] = []
+        for e in elts:
+            m = union_members(e)
+            if m is None:
+                return None
+            out += m
+        return out
+    if isinstance(ann, (ast.Name, ast.Attribute)) or (isinstance(ann, ast.Constant) and ann.value is None):
+        return [ann]
+    return None
+
+
+def graph_or_name_params(fn: ast.FunctionDef, markers: tuple[str, ...]) -> list[str]:
+    """Parameters (other than the receiver) annotated with a plain union one of whose alternatives is named in `markers`."""
+    a = fn.args
+    out = []
+    for p in (list(a.posonlyargs) + list(a.args))[1:] + list(a.kwonlyargs):
+        ms = union_members(p.annotation)
+        if ms and any((m.attr if isinstance(m, ast.Attribute) else getattr(m, "id", None)) in markers for m in ms):
+            out.append(p.arg)
+    return out
+
+
+# =========================================================================== rules e, f, i restated (sixth pass, DESIGN §14)
+#
+# The three rules below used to look for one spelling of a construct (a helper called *has_context*, a test whose text contains
+# "context is not None", an assignment whose text contains "default_context").  They are stated here on what the clause is about:
+#
+# * GuardWalk        - a path-sensitive structured walk of ONE function over a handful of boolean atoms recognised in its tests
+#                      (`context is None`, `c == req_ctx`, `len(contexts of t) == 0`, ...).  Every simple statement is visited with
+#                      the set of valuations of those atoms under which it can be reached, so `a and (b or c)`, the same condition as
+#                      nested ifs, as a guard clause (`if not ..: continue`) or De-Morganed are one and the same thing.
+# * remove_scoping   - rule e on Memory.remove, by the role of the statements (what they un-link, what keys they delete).
+# * CtxFilterInterp  - rule f: abstract execution of the store's triples() per pattern shape, following `yield from`/`for` into the
+#                      private generators it delegates to; a yield is justified by a membership test that relates the yielded triple
+#                      and the requested context through the store's state (directly or inside a predicate method of the class).
+# * NullScenario     - rule i: nullness of the graph component the quad resolver returns under "called as add() calls it, 4-tuple".
+
+
+def positional_params(fn: ast.AST) -> list[str]:
+    a = fn.args  # type: ignore[attr-defined]
+    return [x.arg for x in list(a.posonlyargs) + list(a.args)]
+
+
+def bound_names(nodes) -> set[str]:
+    """Names (re)bound anywhere inside the statement(s): assignment / loop / with / except / walrus / del targets."""
+    out: set[str] = set()
+    for node in (nodes if isinstance(nodes, list) else [nodes]):
+        for n in ast.walk(node):
+            if isinstance(n, ast.Name) and isinstance(n.ctx, (ast.Store, ast.Del)):
+                out.add(n.id)
+            elif isinstance(n, ast.ExceptHandler) and n.name:
+                out.add(n.name)
+    return out
+
+
+def root_name(e: ast.AST) -> Optional[str]:
+    """The name an attribute / subscript / call chain hangs from: self.a[b].c(d) -> self."""
+    while True:
+        if isinstance(e, ast.Attribute):
+            e = e.value
+        elif isinstance(e, ast.Subscript):
+            e = e.value
+        elif isinstance(e, ast.Call):
+            e = e.func
+        else:
+            break
+    return e.id if isinstance(e, ast.Name) else None
+
+
+def is_none_const(e: ast.AST, none_names: frozenset = frozenset()) -> bool:
+    return (isinstance(e, ast.Constant) and e.value is None) or (isinstance(e, ast.Name) and e.id in none_names)
+
+
+def module_none_names(mod: Module) -> frozenset:
+    """Module-level names bound to the constant None (ANY = None)."""
+    out = set()
+    for st in mod.tree.body:
+        if isinstance(st, ast.Assign) and len(st.targets) == 1 and isinstance(st.targets[0], ast.Name) and is_none_const(st.value):
+            out.add(st.targets[0].id)
+        elif isinstance(st, ast.AnnAssign) and isinstance(st.target, ast.Name) and st.value is not None and is_none_const(st.value):
+            out.add(st.target.id)
+    return frozenset(out)
+
+
+def reads_state_by(e: ast.AST, recv: str, keys: set[str]) -> list[ast.expr]:
+    """The arguments / subscript keys named in `keys` with which `e` reads the receiver's state: self.m(k), self.A[k], self.A.get(k, d)."""
+    out: list[ast.expr] = []
+    for n in ast.walk(e):
+        if isinstance(n, ast.Call) and root_name(n.func) == recv and isinstance(n.func, ast.Attribute):
+            for a in list(n.args) + [k.value for k in n.keywords]:
+                if isinstance(a, ast.Name) and a.id in keys:
+                    out.append(a)
+        elif isinstance(n, ast.Subscript) and root_name(n.value) == recv and isinstance(n.slice, ast.Name) and n.slice.id in keys:
+            out.append(n.slice)
+    return out
+
+
+# --------------------------------------------------------------------------- path-sensitive walk over boolean atoms
+
+class GuardWalk:
+    """atom_of(expr) -> (key, positive, names) | None recognises an atomic condition (key: hashable; names: the local names its value
+    depends on).  visit(stmt, valuations) is called for every simple statement with the valuations (frozensets of (key, bool)) under
+    which it can be reached; an atom that was not decided on the way is absent from a valuation.  Rebinding a name forgets the atoms
+    that depend on it; a loop body is walked with the atoms depending on anything the loop rebinds forgotten."""
+
+    def __init__(self, atom_of: Callable[[ast.expr], Optional[tuple]], visit: Callable[[ast.stmt, set], None],
+                 alias_of: Optional[Callable[[str], Optional[ast.expr]]] = None):
+        self.atom_of = atom_of
+        self.visit = visit
+        # name -> the condition a flag variable stands for (`everywhere = context is None`), given only where the name has that one
+        # definition and the condition reads nothing that is ever rebound
+        self.alias_of = alias_of
+        self.deps: dict = {}
+
+    def ev(self, e: ast.expr, v: frozenset) -> list[tuple[frozenset, Optional[bool]]]:
+        a = self.atom_of(e)
+        if a is not None:
+            key, pos, names = a
+            self.deps[key] = frozenset(names)
+            d = dict(v)
+            if key in d:
+                return [(v, d[key] == pos)]
+            return [(frozenset(v | {(key, True)}), pos), (frozenset(v | {(key, False)}), not pos)]
+        if isinstance(e, ast.Name) and self.alias_of is not None:
+            cond = self.alias_of(e.id)
+            if cond is not None and not (isinstance(cond, ast.Name) and cond.id == e.id):
+                return self.ev(cond, v)
+        if isinstance(e, ast.UnaryOp) and isinstance(e.op, ast.Not):
+            return [(v1, None if r is None else (not r)) for v1, r in self.ev(e.operand, v)]
+        if isinstance(e, ast.BoolOp):
+            is_and = isinstance(e.op, ast.And)
+            cur: list[tuple[frozenset, Optional[bool]]] = [(v, is_and)]
+            for operand in e.values:
+                nxt = []
+                for v1, r1 in cur:
+                    if r1 is (not is_and):  # decided: the remaining operands are not evaluated
+                        nxt.append((v1, r1))
+                        continue
+                    for v2, r2 in self.ev(operand, v1):
+                        if r2 is (not is_and):
+                            r: Optional[bool] = not is_and
+                        elif r1 is None or r2 is None:
+                            r = None
+                        else:
+                            r = is_and
+                        nxt.append((v2, r))
+                cur = nxt
+            return cur
+        return [(v, None)]
+
+    def split(self, test: ast.expr, vals: set) -> tuple[set, set]:
+        t: set = set()
+        f: set = set()
+        for v in vals:
+            for v1, r in self.ev(test, v):
+                if r is not False:
+                    t.add(v1)
+                if r is not True:
+                    f.add(v1)
+        return t, f
+
+    def kill(self, vals: set, names: set[str]) -> set:
+        if not names:
+            return set(vals)
+        dead = {k for k, d in self.deps.items() if d & names}
+        if not dead:
+            return set(vals)
+        return {frozenset(i for i in v if i[0] not in dead) for v in vals}
+
+    def block(self, stmts: list, vals: set) -> set:
+        for s in stmts:
+            if not vals:
+                break
+            vals = self.stmt(s, vals)
+        return vals
+
+    def stmt(self, s: ast.stmt, vals: set) -> set:
+        if isinstance(s, (ast.FunctionDef, ast.AsyncFunctionDef, ast.ClassDef)):
+            return vals
+        if isinstance(s, ast.If):
+            t, f = self.split(s.test, vals)
+            return self.block(s.body, t) | self.block(s.orelse, f)
+        if isinstance(s, (ast.For, ast.AsyncFor, ast.While)):
+            entry = self.kill(vals, bound_names(s))
+            inside = self.split(s.test, entry)[0] if isinstance(s, ast.While) else entry
+            self.block(s.body, inside)
+            return entry | (self.block(s.orelse, set(entry)) if s.orelse else set())
+        if isinstance(s, ast.Try) or type(s).__name__ == "TryStar":
+            out = self.block(s.body, set(vals))
+            hv = self.kill(vals, bound_names(s.body))
+            if s.orelse:
+                out = self.block(s.orelse, out)
+            for h in s.handlers:
+                out = out | self.block(h.body, self.kill(hv, {h.name} if h.name else set()))
+            if s.finalbody:
+                out = self.block(s.finalbody, out | hv)
+            return out
+        if isinstance(s, (ast.With, ast.AsyncWith)):
+            return self.block(s.body, self.kill(vals, bound_names([i.optional_vars for i in s.items if i.optional_vars is not None])))
+        if type(s).__name__ == "Match":
+            out: set = set(vals)
+            for c in s.cases:  # type: ignore[attr-defined]
+                out |= self.block(c.body, self.kill(vals, bound_names(c.pattern)))
+            return out
+        self.visit(s, vals)
+        if isinstance(s, (ast.Return, ast.Raise, ast.Continue, ast.Break)):
+            return set()
+        return self.kill(vals, bound_names(s))
+
+
+def holds(v: frozenset, key) -> bool:
+    return (key, True) in v
+
+
+# --------------------------------------------------------------------------- e: what a scoped removal may un-link and delete
+
+_LEN_EMPTY = {(ast.Eq, 0): True, (ast.NotEq, 0): False, (ast.Lt, 1): True, (ast.LtE, 0): True, (ast.Gt, 0): False, (ast.GtE, 1): False}
+_SWAP = {ast.Lt: ast.Gt, ast.Gt: ast.Lt, ast.LtE: ast.GtE, ast.GtE: ast.LtE, ast.Eq: ast.Eq, ast.NotEq: ast.NotEq}
+
+
+def _len_arg(e: ast.AST) -> Optional[ast.expr]:
+    if isinstance(e, ast.Call) and isinstance(e.func, ast.Name) and e.func.id == "len" and len(e.args) == 1 and not e.keywords:
+        return e.args[0]
+    return None
+
+
+def _len_compare(e: ast.AST) -> Optional[tuple[ast.expr, type, int]]:
+    """len(E) <op> <int> (either way round) -> (E, op, int)"""
+    if not (isinstance(e, ast.Compare) and len(e.ops) == 1):
+        return None
+    l, r, op = e.left, e.comparators[0], type(e.ops[0])
+    if _len_arg(r) is not None and isinstance(l, ast.Constant):
+        if op not in _SWAP:
+            return None
+        l, r, op = r, l, _SWAP[op]
+    arg = _len_arg(l)
+    if arg is None or not (isinstance(r, ast.Constant) and type(r.value) is int):
+        return None
+    return arg, op, r.value
+
+
+def remove_scoping(mod: Module, fn: ast.FunctionDef, cls: ast.ClassDef) -> list[tuple[str, bool, str, ast.AST]]:
+    """Rule e on the store's remove(pattern, context).  Roles, not names:
+
+    * the requested context is the third positional parameter; its key is any local computed by a call that receives it;
+    * the matched triples are what the loop over <receiver>.triples(...) binds first; `the contexts of the triple` is any expression
+      that reads the receiver's state with that triple as argument / key (or a local assigned once from such an expression);
+    * an EFFECT is a call statement rooted at the receiver or a local, a `del`, or an assignment to a subscript / attribute.
+
+    (1) an effect that involves the triple and the variable of an inner loop (one context among those enumerated for the triple) is
+        reached only where `context is None` or that variable equals the requested key;
+    (2) a `del` keyed by a COMPONENT of the triple (an index entry) is reached only where the contexts of the triple are empty; a `del`
+        keyed by the triple itself (its entry in a per-triple table) only there or where what remains equals the store's default
+        entry (the attribute that per-triple look-ups fall back to), i.e. where dropping the entry changes nothing;
+    (3) an effect that involves the triple and the constant None as key / argument (the union entry) is reached only where None is
+        among the triple's contexts E and (`context is None` or len(E) == 1)."""
+    ps = positional_params(fn)
+    if len(ps) < 3:
+        raise AnalysisError("%s: expected (receiver, pattern, context)" % fn.name)
+    recv, ctxp = ps[0], ps[2]
+    local = bound_names(fn.body) | set(ps) | {a.arg for a in fn.args.kwonlyargs}
+    # the definitions of each local that is only ever bound by plain assignment (a name used in a test is resolved to what it was computed from:
+    # a property that holds of every definition holds of the one that reaches the test)
+    defs: dict[str, list[ast.expr]] = {}
+    for n in own_nodes(fn):
+        if isinstance(n, ast.Assign) and len(n.targets) == 1 and isinstance(n.targets[0], ast.Name):
+            defs.setdefault(n.targets[0].id, []).append(n.value)
+        elif isinstance(n, ast.AnnAssign) and isinstance(n.target, ast.Name) and n.value is not None:
+            defs.setdefault(n.target.id, []).append(n.value)
+    for n in own_nodes(fn):  # bound in another way as well (loop / with / unpacking / walrus / del / except): not resolvable
+        other: set[str] = set()
+        if isinstance(n, (ast.For, ast.AsyncFor)):
+            other = bound_names(n.target)
+        elif isinstance(n, ast.Assign):
+            other = bound_names([t for t in n.targets if not isinstance(t, ast.Name)] + ([] if len(n.targets) == 1 else list(n.targets)))
+        elif isinstance(n, (ast.AugAssign, ast.NamedExpr, ast.Delete, ast.With, ast.AsyncWith, ast.ExceptHandler, ast.comprehension)):
+            other = bound_names(n.target if isinstance(n, (ast.AugAssign, ast.NamedExpr, ast.comprehension)) else
+                                ([i.optional_vars for i in n.items if i.optional_vars is not None] if isinstance(n, (ast.With, ast.AsyncWith)) else
+                                 (list(n.targets) if isinstance(n, ast.Delete) else [])))
+            if isinstance(n, ast.ExceptHandler) and n.name:
+                other.add(n.name)
+        for x in other:
+            defs.pop(x, None)
+    for x in ps:
+        defs.pop(x, None)
+    rc = {k for k, vs in defs.items() if all(isinstance(v, ast.Call) and any(isinstance(a, ast.Name) and a.id == ctxp for a in list(v.args) + [kw.value for kw in v.keywords]) for v in vs)}
+    # the attribute(s) a per-triple look-up falls back to: self.T.get(t, self.D)
+    fallbacks = set()
+    for n in ast.walk(cls):
+        if isinstance(n, ast.Call) and isinstance(n.func, ast.Attribute) and n.func.attr == "get" and len(n.args) == 2:
+            d = n.args[1]
+            if isinstance(d, ast.Attribute) and isinstance(d.value, ast.Name):
+                fallbacks.add(d.attr)
+
+    def resolved(e: ast.expr, depth: int = 3) -> list[ast.expr]:
+        """e and every expression a local mentioned in e may have been computed from"""
+        out = [e]
+        if depth:
+            for n in ast.walk(e):
+                if isinstance(n, ast.Name) and n.id in defs:
+                    for d in defs[n.id]:
+                        out += resolved(d, depth - 1)
+        return out
+
+    def computed_by(e: ast.expr, keys: set[str], depth: int = 3) -> bool:
+        """e reads the receiver's state by one of `keys`, or mentions a local EVERY definition of which does"""
+        if reads_state_by(e, recv, keys):
+            return True
+        if depth:
+            for n in ast.walk(e):
+                if isinstance(n, ast.Name) and isinstance(n.ctx, ast.Load) and n.id in defs and all(computed_by(d, keys, depth - 1) for d in defs[n.id]):
+                    return True
+        return False
+
+    outer = []
+    for n in own_nodes(fn):
+        if isinstance(n, (ast.For, ast.AsyncFor)) and any(
+                isinstance(c, ast.Call) and isinstance(c.func, ast.Attribute) and c.func.attr == "triples" and root_name(c.func) == recv
+                for r in resolved(n.iter) for c in ast.walk(r)):
+            outer.append(n)
+    verdicts: list[tuple[str, bool, str, ast.AST]] = []
+    if not outer:
+        why = "no loop over %s.triples(...) in %s: the removal no longer walks the matching triples" % (recv, fn.name)
+        return [("scoped", False, why, fn), ("indexes", False, why, fn), ("union", False, why, fn)]
+    sites: dict[str, list[tuple[ast.AST, bool, str]]] = {"scoped": [], "indexes": [], "union": []}
+    n_index_dels = 0
+    for lp in outer:
+        tgt = lp.target
+        first = tgt.elts[0] if isinstance(tgt, (ast.Tuple, ast.List)) and tgt.elts else tgt
+        if not isinstance(first, ast.Name):
+            raise AnalysisError("%s: the loop over triples() does not bind the triple to a name" % fn.name)
+        T = {first.id}
+        for n in ast.walk(lp):
+            if isinstance(n, ast.Assign) and len(n.targets) == 1 and isinstance(n.targets[0], ast.Name) and isinstance(n.value, ast.Name) and n.value.id in T:
+                T.add(n.targets[0].id)
+        comps = set()
+        for n in ast.walk(lp):
+            if isinstance(n, ast.Assign) and isinstance(n.value, ast.Name) and n.value.id in T:
+                for t in n.targets:
+                    if isinstance(t, (ast.Tuple, ast.List)):
+                        comps |= bound_names(t)
+        D = plainly_derived(lp, set(T))
+        inner_vars = {n.target.id for n in ast.walk(lp) if n is not lp and isinstance(n, (ast.For, ast.AsyncFor)) and isinstance(n.target, ast.Name)}
+
+        def ctxs_of_triple(e: ast.expr) -> bool:
+            return computed_by(e, T)
+
+        def atom_of(e: ast.expr) -> Optional[tuple]:
+            if isinstance(e, ast.Compare) and len(e.ops) == 1:
+                l, r, op = e.left, e.comparators[0], e.ops[0]
+                if isinstance(op, (ast.Is, ast.IsNot, ast.Eq, ast.NotEq)):
+                    for a, b in ((l, r), (r, l)):
+                        if isinstance(a, ast.Name) and a.id == ctxp and is_none_const(b):
+                            return ("ctx-none",), isinstance(op, (ast.Is, ast.Eq)), {ctxp}
+                if isinstance(op, (ast.Eq, ast.NotEq)):
+                    for a, b in ((l, r), (r, l)):
+                        if isinstance(a, ast.Name) and a.id in inner_vars and isinstance(b, ast.Name) and b.id in rc:
+                            return ("eq", a.id), isinstance(op, ast.Eq), {a.id, b.id}
+                        if (isinstance(b, ast.Attribute) and isinstance(b.value, ast.Name) and b.value.id == recv and b.attr in fallbacks
+                                and isinstance(a, ast.Name) and a.id in D):
+                            return ("eq-default", a.id), isinstance(op, ast.Eq), {a.id}
+                if isinstance(op, (ast.In, ast.NotIn)) and is_none_const(l) and ctxs_of_triple(r):
+                    return ("none-in", norm(r)), isinstance(op, ast.In), {n.id for n in ast.walk(r) if isinstance(n, ast.Name)}
+                lc = _len_compare(e)
+                if lc is not None and ctxs_of_triple(lc[0]):
+                    E, cop, k = lc
+                    names = {n.id for n in ast.walk(E) if isinstance(n, ast.Name)}
+                    if (cop, k) in _LEN_EMPTY:
+                        return ("empty", norm(E)), _LEN_EMPTY[(cop, k)], names
+                    if k == 1 and cop in (ast.Eq, ast.NotEq):
+                        return ("single", norm(E)), cop is ast.Eq, names
+                return None
+            # truth value of the collection / of its length: non-empty
+            E = _len_arg(e) or e
+            if isinstance(E, (ast.Name, ast.Call, ast.Subscript, ast.Attribute)) and not isinstance(e, ast.Constant) and ctxs_of_triple(E) \
+                    and not (isinstance(E, ast.Call) and isinstance(E.func, ast.Name)):
+                return ("empty", norm(E)), False, {n.id for n in ast.walk(E) if isinstance(n, ast.Name)}
+            return None
+
+        def is_effect(s: ast.stmt) -> bool:
+            if isinstance(s, ast.Delete):
+                return True
+            if isinstance(s, ast.Expr) and isinstance(s.value, ast.Call):
+                r = root_name(s.value.func)
+                return r is not None and (r == recv or r in local)
+            if isinstance(s, ast.Assign):
+                return any(isinstance(t, (ast.Subscript, ast.Attribute)) for t in s.targets)
+            if isinstance(s, (ast.AugAssign, ast.AnnAssign)):
+                return isinstance(s.target, (ast.Subscript, ast.Attribute))
+            return False
+
+        def keyed_by_none(s: ast.stmt) -> bool:
+            for n in ast.walk(s):
+                if isinstance(n, ast.Subscript) and is_none_const(n.slice):
+                    return True
+                if isinstance(n, ast.Call) and root_name(n.func) in ({recv} | local) and any(is_none_const(a) for a in list(n.args) + [k.value for k in n.keywords]):
+                    return True
+            return False
+
+        def del_keys(s: ast.Delete) -> list[ast.expr]:
+            out = []
+            for t in s.targets:
+                while isinstance(t, ast.Subscript):
+                    out.append(t.slice)
+                    t = t.value
+            return out
+
+        def visit(s: ast.stmt, vals: set) -> None:
+            nonlocal n_index_dels
+            if not is_effect(s) or not mentions(s, D):
+                return
+            # (1) one enumerated context among the triple's
+            enclosing = [p.target.id for p in mod.parents(s) if isinstance(p, (ast.For, ast.AsyncFor)) and p is not lp and isinstance(p.target, ast.Name)
+                         and any(q is lp for q in mod.parents(p))]
+            for c in enclosing:
+                if mentions(s, {c}):
+                    bad = [v for v in vals if not (holds(v, ("ctx-none",)) or holds(v, ("eq", c)))]
+                    sites["scoped"].append((s, not bad, "`%s` (context %s of the triple) is reached although a graph was given and %s is not known to be the requested one" % (norm(s)[:60], c, c)))
+            # (2) deletions
+            if isinstance(s, ast.Delete):
+                keys = del_keys(s)
+                by_comp = any((isinstance(k, ast.Name) and k.id in comps) or (isinstance(k, ast.Subscript) and isinstance(k.value, ast.Name) and k.value.id in T) for k in keys)
+                by_triple = any(isinstance(k, ast.Name) and k.id in T for k in keys)
+                if by_comp:
+                    n_index_dels += 1
+                    bad = [v for v in vals if not any(k[0] == "empty" and b for k, b in v)]
+                    sites["indexes"].append((s, not bad, "`%s` is reached where the triple may still have a context" % norm(s)[:60]))
+                elif by_triple:
+                    bad = [v for v in vals if not any(k[0] in ("empty", "eq-default") and b for k, b in v)]
+                    sites["indexes"].append((s, not bad, "`%s` is reached where the triple may still have contexts that differ from the default entry" % norm(s)[:60]))
+            # (3) the union / default entry
+            if keyed_by_none(s):
+                def fine(v: frozenset) -> bool:
+                    for k, b in v:
+                        if k[0] == "none-in" and b and (holds(v, ("ctx-none",)) or holds(v, ("single", k[1]))):
+                            return True
+                    return False
+                bad = [v for v in vals if not fine(v)]
+                sites["union"].append((s, not bad, "`%s` is reached under a condition that does not imply `None in E and (context is None or len(E) == 1)` for the triple's contexts E" % norm(s)[:60]))
+
+        rebound = bound_names(fn.body)
+
+        def alias_of(name: str) -> Optional[ast.expr]:
+            ds = defs.get(name)
+            if ds and len(ds) == 1 and isinstance(ds[0], (ast.Compare, ast.BoolOp, ast.UnaryOp)) and not any(
+                    isinstance(n, ast.Name) and n.id in rebound for n in ast.walk(ds[0])) and not any(isinstance(n, ast.Call) for n in ast.walk(ds[0])):
+                return ds[0]
+            return None
+
+        gw = GuardWalk(atom_of, visit, alias_of)
+        gw.block(lp.body, {frozenset()})
+
+    def verdict(kind: str, missing: str, need: bool = True) -> None:
+        ss = sites[kind]
+        bad = [x for x in ss if not x[1]]
+        if bad:
+            verdicts.append((kind, False, bad[0][2], bad[0][0]))
+        elif not ss or not need:
+            verdicts.append((kind, False, missing, fn))
+        else:
+            verdicts.append((kind, True, "%d site(s)" % len(ss), ss[0][0]))
+
+    verdict("scoped", "no statement un-links the triple from one of its enumerated contexts: the per-context walk of the removal was not found")
+    verdict("indexes", "no deletion keyed by the components of the removed triple was found", need=n_index_dels > 0)
+    verdict("union", "no statement un-links the triple from the union entry (key None)")
+    return verdicts
+
+
+# --------------------------------------------------------------------------- f: every yielded triple passed the context filter
+
+ROLES = ("S", "P", "O")
+
+
+def shapes() -> Iterator[dict[str, bool]]:
+    import itertools
+
+    for bits in itertools.product((True, False), repeat=3):
+        yield dict(zip(ROLES, bits))
+
+
+_SNAPSHOTS = ("list", "tuple", "set", "frozenset", "sorted", "iter")
+
+
+def _is_empty_literal(e: ast.AST) -> bool:
+    if isinstance(e, (ast.Tuple, ast.List, ast.Set)) and not e.elts:
+        return True
+    if isinstance(e, ast.Dict) and not e.keys:
+        return True
+    return isinstance(e, ast.Call) and isinstance(e.func, ast.Name) and e.func.id in ("set", "frozenset", "tuple", "list", "dict") and not e.args and not e.keywords
+
+
+class YieldRec:
+    def __init__(self, node: ast.AST, shape: str, where: str, ok: bool, why: str):
+        self.node, self.shape, self.where, self.ok, self.why = node, shape, where, ok, why
+
+
+class CtxFilterInterp:
+    """Abstract execution of <cls>.<entry>(pattern, context) - the context-aware store's triples() - once per pattern shape.
+
+    Tracked per path: which names are known (not) None (the components of the pattern, folded by shape, and what is passed on to a
+    helper), which names hold the REQUESTED CONTEXT (the context parameter, or the result of a method of the class called with it
+    alone: its key), which hold THE REQUESTED CONTEXT'S OWN TRIPLE SET (a table of the receiver subscripted / .get() by the requested
+    context, possibly snapshotted), and which triple-valued names / (a, b, c) tuples have PASSED THE CONTEXT FILTER on this path.
+
+    A test is a context filter for t when it is `t in C` with C read from the receiver's state by the requested context,
+    `k in C` with k the requested context and C read from the receiver's state by t, or a call of a method of the class every
+    `return` of which is such a test on its parameters (or False) - whatever the method is called; and / or / not / guard clauses /
+    a flag variable are followed.  A yield is justified when its triple (the first element of the yielded tuple) has passed the
+    filter, or is drawn from the requested context's own triple set.  `yield from self.g(...)`, `for x in self.g(...)` and
+    `return self.g(...)` over a generator method g of the class continue the execution in g with what is known about the arguments."""
+
+    LEAK = "yield is not guarded by the per-triple context filter for this triple: triples of other graphs leak into the requested graph"
+
+    def __init__(self, mod: Module, cls: str, entry: str = "triples"):
+        self.mod, self.cls = mod, cls
+        self.methods = mod.methods(cls)
+        if entry not in self.methods:
+            raise AnalysisError("anchor vanished: %s:%s.%s" % (mod.rel, cls, entry))
+        self.fn = self.methods[entry]
+        ps = positional_params(self.fn)
+        if len(ps) < 3:
+            raise AnalysisError("%s.%s: expected (receiver, pattern, context)" % (cls, entry))
+        self.recv, self.patp, self.ctxp = ps[0], ps[1], ps[2]
+        self.none_names = module_none_names(mod)
+        self.records: list[YieldRec] = []
+        self.bound: dict[str, bool] = {}
+        self.shape = ""
+        self._pred: dict[int, list[tuple[str, str]]] = {}
+        self._stack: list[int] = []
+        self._where = [cls + "." + entry]
+
+    # ---- environment
+    @staticmethod
+    def new_env() -> dict:
+        return {"nn": {}, "rc": set(), "cs": set(), "passed": set(), "tup": {}, "pat": set(), "flags": {}, "dump": set()}
+
+    @staticmethod
+    def copy(env: dict) -> dict:
+        return {"nn": dict(env["nn"]), "rc": set(env["rc"]), "cs": set(env["cs"]), "passed": set(env["passed"]), "tup": dict(env["tup"]),
+                "pat": set(env["pat"]), "flags": dict(env["flags"]), "dump": set(env["dump"])}
+
+    @staticmethod
+    def merge(envs: list) -> Optional[dict]:
+        envs = [e for e in envs if e is not None]
+        if not envs:
+            return None
+        out = CtxFilterInterp.copy(envs[0])
+        for e in envs[1:]:
+            out["nn"] = {k: v for k, v in out["nn"].items() if e["nn"].get(k) is v}
+            for f in ("rc", "cs", "passed", "pat", "dump"):
+                out[f] &= e[f]
+            out["tup"] = {k: v for k, v in out["tup"].items() if e["tup"].get(k) == v}
+            out["flags"] = {k: v for k, v in out["flags"].items() if e["flags"].get(k) == v}
+        return out
+
+    @staticmethod
+    def kill(env: dict, names: set[str]) -> dict:
+        for n in names:
+            env["nn"].pop(n, None)
+            for f in ("rc", "cs", "passed", "pat", "dump"):
+                env[f].discard(n)
+            env["tup"].pop(n, None)
+            env["flags"].pop(n, None)
+        if names:
+            env["passed"] = {k for k in env["passed"] if not (isinstance(k, tuple) and names & set(k))}
+            env["tup"] = {a: t for a, t in env["tup"].items() if not (names & set(t))}
+            env["flags"] = {a: ks for a, ks in env["flags"].items() if not any((k in names) or (isinstance(k, tuple) and names & set(k)) for k in ks)}
+        return env
+
+    # ---- values
+    def keys_of(self, e: Optional[ast.AST], env: dict) -> list:
+        if isinstance(e, ast.Name):
+            return [e.id] + ([env["tup"][e.id]] if e.id in env["tup"] else [])
+        if isinstance(e, ast.Tuple) and e.elts and all(isinstance(x, ast.Name) for x in e.elts):
+            return [tuple(x.id for x in e.elts)]
+        return []
+
+    def is_passed(self, e: Optional[ast.AST], env: dict) -> bool:
+        return any(k in env["passed"] for k in self.keys_of(e, env))
+
+    def noneness(self, e: ast.AST, env: dict) -> Optional[bool]:
+        if is_none_const(e, self.none_names):
+            return True
+        if isinstance(e, ast.Name):
+            return env["nn"].get(e.id)
+        if isinstance(e, (ast.Constant, ast.Tuple, ast.List, ast.Dict, ast.Set, ast.JoinedStr)):
+            return False
+        return None
+
+    def direct_attr(self, e: ast.AST) -> bool:
+        return isinstance(e, ast.Attribute) and isinstance(e.value, ast.Name) and e.value.id == self.recv
+
+    def ctxset(self, e: ast.AST, env: dict) -> bool:
+        """e evaluates to (a snapshot of) the requested context's own triple set"""
+        while True:
+            if isinstance(e, ast.Call) and isinstance(e.func, ast.Attribute) and e.func.attr == "copy" and not e.args and not e.keywords:
+                e = e.func.value
+            elif isinstance(e, ast.Call) and isinstance(e.func, ast.Name) and e.func.id in _SNAPSHOTS and len(e.args) == 1 and not e.keywords:
+                e = e.args[0]
+            else:
+                break
+        if isinstance(e, ast.Name):
+            return e.id in env["cs"]
+        if isinstance(e, ast.Subscript) and self.direct_attr(e.value) and isinstance(e.slice, ast.Name) and e.slice.id in env["rc"]:
+            return True
+        if (isinstance(e, ast.Call) and isinstance(e.func, ast.Attribute) and e.func.attr in ("get", "setdefault") and self.direct_attr(e.func.value)
+                and e.args and isinstance(e.args[0], ast.Name) and e.args[0].id in env["rc"]
+                and all(_is_empty_literal(a) or is_none_const(a) for a in e.args[1:])):
+            return True
+        if isinstance(e, ast.BoolOp) and isinstance(e.op, ast.Or) and self.ctxset(e.values[0], env) and all(_is_empty_literal(v) for v in e.values[1:]):
+            return True
+        return False
+
+    # ---- methods of the class
+    def method_call(self, e: ast.AST) -> Optional[ast.FunctionDef]:
+        if (isinstance(e, ast.Call) and isinstance(e.func, ast.Attribute) and isinstance(e.func.value, ast.Name) and e.func.value.id == self.recv
+                and e.func.attr in self.methods):
+            return self.methods[e.func.attr]
+        return None
+
+    @staticmethod
+    def is_generator(fn: ast.AST) -> bool:
+        return any(isinstance(n, (ast.Yield, ast.YieldFrom)) for n in own_nodes(fn))
+
+    @staticmethod
+    def bind_args(call: ast.Call, fn: ast.FunctionDef) -> Optional[dict[str, ast.expr]]:
+        if any(isinstance(a, ast.Starred) for a in call.args) or any(k.arg is None for k in call.keywords):
+            return None
+        ps = positional_params(fn)[1:]
+        if isinstance(fn, ast.FunctionDef) and any(isinstance(d, ast.Name) and d.id == "staticmethod" for d in fn.decorator_list):
+            ps = positional_params(fn)
+        if len(call.args) > len(ps):
+            return None
+        out = dict(zip(ps, call.args))
+        allowed = set(ps) | {a.arg for a in fn.args.kwonlyargs}
+        for k in call.keywords:
+            if k.arg not in allowed or k.arg in out:
+                return None
+            out[k.arg] = k.value
+        return out
+
+    def predicate_pairs(self, m: ast.FunctionDef) -> list[tuple[str, str]]:
+        """(t, c): parameters of m such that every return of m is a context filter for t w.r.t. the context c (or False)."""
+        if id(m) in self._pred:
+            return self._pred[id(m)]
+        self._pred[id(m)] = []  # a recursive predicate proves nothing
+        out: list[tuple[str, str]] = []
+        rets = [n for n in own_nodes(m) if isinstance(n, ast.Return)]
+        ps = positional_params(m)[1:] + [a.arg for a in m.args.kwonlyargs]
+        rebound = bound_names(m.body)
+        if rets and not self.is_generator(m):
+            for pt in ps:
+                for pc in ps:
+                    if pt == pc or pt in rebound or pc in rebound:
+                        continue
+                    env = self.new_env()
+                    env["rc"].add(pc)
+                    real = 0
+                    good = True
+                    for r in rets:
+                        if r.value is not None and isinstance(r.value, ast.Constant) and r.value.value is False:
+                            continue
+                        if r.value is None or pt not in self.facts(r.value, env)[0]:
+                            good = False
+                            break
+                        real += 1
+                    if good and real:
+                        out.append((pt, pc))
+        self._pred[id(m)] = out
+        return out
+
+    # ---- tests
+    def facts(self, t: ast.expr, env: dict) -> tuple[set, set]:
+        """(keys that have passed the context filter where t is true, ... where t is false)"""
+        if isinstance(t, ast.UnaryOp) and isinstance(t.op, ast.Not):
+            a, b = self.facts(t.operand, env)
+            return b, a
+        if isinstance(t, ast.BoolOp):
+            parts = [self.facts(v, env) for v in t.values]
+            union_t = set().union(*[p[0] for p in parts])
+            union_f = set().union(*[p[1] for p in parts])
+            inter_t = set.intersection(*[set(p[0]) for p in parts])
+            inter_f = set.intersection(*[set(p[1]) for p in parts])
+            return (union_t, inter_f) if isinstance(t.op, ast.And) else (inter_t, union_f)
+        if isinstance(t, ast.NamedExpr):
+            return self.facts(t.value, env)
+        if isinstance(t, ast.Name) and t.id in env["flags"]:
+            return set(env["flags"][t.id]), set()
+        if isinstance(t, ast.Compare) and len(t.ops) == 1 and isinstance(t.ops[0], (ast.In, ast.NotIn)):
+            l, r = t.left, t.comparators[0]
+            ks: list = []
+            if self.keys_of(l, env) and (self.ctxset(r, env) or reads_state_by(r, self.recv, env["rc"])):
+                ks = self.keys_of(l, env)
+            elif isinstance(l, ast.Name) and l.id in env["rc"]:
+                for n in ast.walk(r):
+                    cands: list[ast.expr] = []
+                    if isinstance(n, ast.Call) and isinstance(n.func, ast.Attribute) and root_name(n.func) == self.recv:
+                        cands = list(n.args) + [k.value for k in n.keywords]
+                    elif isinstance(n, ast.Subscript) and root_name(n.value) == self.recv:
+                        cands = [n.slice]
+                    for c in cands:
+                        if not (isinstance(c, ast.Name) and c.id in env["rc"]):
+                            ks += self.keys_of(c, env)
+            if ks:
+                return (set(ks), set()) if isinstance(t.ops[0], ast.In) else (set(), set(ks))
+            return set(), set()
+        m = self.method_call(t)
+        if m is not None:
+            b = self.bind_args(t, m)  # type: ignore[arg-type]
+            if b:
+                for pt, pc in self.predicate_pairs(m):
+                    if pt in b and pc in b and isinstance(b[pc], ast.Name) and b[pc].id in env["rc"] and self.keys_of(b[pt], env):
+                        return set(self.keys_of(b[pt], env)), set()
+        return set(), set()
+
+    def fold(self, t: ast.expr, env: dict) -> Optional[bool]:
+        if isinstance(t, ast.UnaryOp) and isinstance(t.op, ast.Not):
+            v = self.fold(t.operand, env)
+            return None if v is None else (not v)
+        if isinstance(t, ast.BoolOp):
+            vals = [self.fold(v, env) for v in t.values]
+            if isinstance(t.op, ast.And):
+                return False if any(v is False for v in vals) else (True if all(v is True for v in vals) else None)
+            return True if any(v is True for v in vals) else (False if all(v is False for v in vals) else None)
+        if isinstance(t, ast.Compare) and len(t.ops) == 1 and isinstance(t.ops[0], (ast.Is, ast.IsNot, ast.Eq, ast.NotEq)):
+            l, r = t.left, t.comparators[0]
+            for a, b in ((l, r), (r, l)):
+                if is_none_const(b, self.none_names) and not is_none_const(a, self.none_names):
+                    nz = self.noneness(a, env)
+                    if nz is None:
+                        return None
+                    return nz if isinstance(t.ops[0], (ast.Is, ast.Eq)) else (not nz)
+        return None
+
+    def refine(self, t: ast.expr, truth: bool, env: dict) -> None:
+        """what a test that came out `truth` says about None-ness"""
+        if isinstance(t, ast.UnaryOp) and isinstance(t.op, ast.Not):
+            self.refine(t.operand, not truth, env)
+        elif isinstance(t, ast.BoolOp):
+            if (isinstance(t.op, ast.And) and truth) or (isinstance(t.op, ast.Or) and not truth):
+                for v in t.values:
+                    self.refine(v, truth, env)
+        elif isinstance(t, ast.Compare) and len(t.ops) == 1 and isinstance(t.ops[0], (ast.Is, ast.IsNot, ast.Eq, ast.NotEq)):
+            l, r = t.left, t.comparators[0]
+            for a, b in ((l, r), (r, l)):
+                if is_none_const(b, self.none_names) and isinstance(a, ast.Name) and a.id not in self.none_names:
+                    # `a == None` may be overloaded; identity is what the stores use - both are read as a None test, as the old rule did
+                    env["nn"][a.id] = truth if isinstance(t.ops[0], (ast.Is, ast.Eq)) else (not truth)
+
+    # ---- execution
+    def run_shape(self, bound: dict[str, bool]) -> int:
+        self.bound = bound
+        self.shape = "".join(r if bound[r] else "-" for r in ROLES)
+        before = len(self.records)
+        env = self.new_env()
+        env["pat"].add(self.patp)
+        env["rc"].add(self.ctxp)
+        self._stack = [id(self.fn)]
+        self._fns = [self.fn]
+        self.block(self.fn.body, env)
+        return len(self.records) - before
+
+    def block(self, stmts: list, env: Optional[dict]) -> Optional[dict]:
+        for s in stmts:
+            if env is None:
+                return None
+            env = self.stmt(s, env)
+        return env
+
+    def record(self, node: ast.AST, ok: bool, why: str) -> None:
+        self.records.append(YieldRec(node, self.shape, self._where[-1], ok, why))
+
+    def do_yield(self, y: ast.Yield, env: dict) -> None:
+        v = y.value
+        first = v.elts[0] if isinstance(v, ast.Tuple) and v.elts else v
+        if first is None or not self.is_passed(first, env):
+            self.record(y, False, self.LEAK)
+        elif isinstance(first, ast.Name) and first.id in env["dump"] and any(self.bound.values()):
+            self.record(y, False, "per-context dump yields for a shape with bound positions")
+        else:
+            self.record(y, True, "context-filtered")
+
+    def delegate(self, g: ast.FunctionDef, call: ast.Call, env: dict) -> list[YieldRec]:
+        """the yields of the generator method g under what is known about the arguments of `call`"""
+        saved, self.records = self.records, []
+        b = self.bind_args(call, g)
+        if b is None or id(g) in self._stack:
+            self.record(call, False, "delegates to %s in a way that is not followed (%s): %s" % (g.name, "recursion" if b is not None else "*args/**kwargs", self.LEAK))
+        else:
+            e2 = self.new_env()
+            for p, a in b.items():
+                nz = self.noneness(a, env)
+                if nz is not None:
+                    e2["nn"][p] = nz
+                if isinstance(a, ast.Name):
+                    for f in ("rc", "cs", "pat", "dump"):
+                        if a.id in env[f]:
+                            e2[f].add(p)
+                elif self.ctxset(a, env):
+                    e2["cs"].add(p)
+                if self.is_passed(a, env):
+                    e2["passed"].add(p)
+            ga = g.args
+            pos = list(ga.posonlyargs) + list(ga.args)
+            for p_, d in list(zip(pos[len(pos) - len(ga.defaults):], ga.defaults)) + [(p_, d) for p_, d in zip(ga.kwonlyargs, ga.kw_defaults) if d is not None]:
+                if p_.arg not in b and is_none_const(d, self.none_names):
+                    e2["nn"][p_.arg] = True
+            self._stack.append(id(g))
+            self._fns.append(g)
+            self._where.append(self.cls + "." + g.name)
+            self.block(g.body, e2)
+            self._where.pop()
+            self._fns.pop()
+            self._stack.pop()
+        recs, self.records = self.records, saved
+        return recs
+
+    def yield_from(self, node: ast.AST, it: ast.expr, env: dict) -> None:
+        g = self.method_call(it)
+        if g is not None and self.is_generator(g):
+            self.records += self.delegate(g, it, env)  # type: ignore[arg-type]
+        elif isinstance(it, ast.GeneratorExp):
+            body: list[ast.stmt] = [ast.Expr(value=ast.Yield(value=it.elt))]
+            for gen in reversed(it.generators):
+                for cond in reversed(gen.ifs):
+                    body = [ast.If(test=cond, body=body, orelse=[])]
+                body = [ast.For(target=gen.target, iter=gen.iter, body=body, orelse=[])]
+            for n in ast.walk(body[0]):
+                if not hasattr(n, "lineno"):
+                    ast.copy_location(n, it)
+            # the synthetic yield is reported at the generator expression
+            self._synthetic = getattr(self, "_synthetic", {})
+            for n in ast.walk(body[0]):
+                if isinstance(n, ast.Yield):
+                    self._synthetic[id(n)] = node
+            self.block(body, self.copy(env))
+        elif _is_empty_literal(it) or (isinstance(it, ast.Call) and isinstance(it.func, ast.Name) and it.func.id == "iter" and len(it.args) == 1 and _is_empty_literal(it.args[0])):
+            pass
+        elif self.ctxset(it, env) and not any(self.bound.values()):
+            self.record(node, True, "the requested context's own triple set")
+        else:
+            self.record(node, False, "elements of %s are passed on unfiltered: %s" % (norm(it)[:50], self.LEAK))
+
+    def stmt(self, s: ast.stmt, env: dict) -> Optional[dict]:
+        if isinstance(s, (ast.FunctionDef, ast.AsyncFunctionDef, ast.ClassDef, ast.Pass, ast.Import, ast.ImportFrom, ast.Global, ast.Nonlocal)):
+            return env
+        if isinstance(s, ast.Expr):
+            v = s.value
+            if isinstance(v, ast.Yield):
+                self.do_yield(v, env)
+            elif isinstance(v, ast.YieldFrom):
+                self.yield_from(v, v.value, env)
+            return env
+        if isinstance(s, (ast.Raise, ast.Continue, ast.Break)):
+            return None
+        if isinstance(s, ast.Return):
+            if s.value is not None:
+                g = self.method_call(s.value)
+                if g is not None and self.is_generator(g) and not self.is_generator(self._fns[-1]):
+                    self.records += self.delegate(g, s.value, env)  # type: ignore[arg-type]
+            return None
+        if isinstance(s, (ast.Assign, ast.AnnAssign)):
+            targets = s.targets if isinstance(s, ast.Assign) else [s.target]
+            v = s.value
+            if v is None:
+                return env
+            if isinstance(v, (ast.Yield, ast.YieldFrom)):
+                if isinstance(v, ast.Yield):
+                    self.do_yield(v, env)
+                else:
+                    self.yield_from(v, v.value, env)
+                return self.kill(env, bound_names(targets))
+            single = targets[0] if len(targets) == 1 else None
+            new: dict = {}
+            if isinstance(single, ast.Name):
+                nz = self.noneness(v, env)
+                if nz is not None:
+                    new["nn"] = nz
+                if isinstance(v, ast.Name):
+                    for f in ("rc", "cs", "pat", "dump"):
+                        if v.id in env[f]:
+                            new[f] = True
+                    if v.id in env["tup"]:
+                        new["tup"] = env["tup"][v.id]
+                    if v.id in env["flags"]:
+                        new["flags"] = env["flags"][v.id]
+                    if self.is_passed(v, env):
+                        new["passed"] = True
+                elif isinstance(v, ast.Tuple) and v.elts and all(isinstance(x, ast.Name) for x in v.elts):
+                    new["tup"] = tuple(x.id for x in v.elts)
+                    if self.is_passed(v, env):
+                        new["passed"] = True
+                elif self.ctxset(v, env):
+                    new["cs"] = True
+                elif (self.method_call(v) is not None and len(v.args) == 1 and not v.keywords and isinstance(v.args[0], ast.Name)  # type: ignore[attr-defined]
+                      and v.args[0].id in env["rc"]):  # type: ignore[attr-defined]
+                    new["rc"] = True  # the key under which the store files the requested context
+                else:
+                    fl = self.facts(v, env)[0]
+                    if fl:
+                        new["flags"] = frozenset(fl)
+            self.kill(env, bound_names(targets))
+            if isinstance(single, ast.Name):
+                for f, val in new.items():
+                    if f in ("rc", "cs", "pat", "dump", "passed"):
+                        env[f].add(single.id)
+                    else:
+                        env[f][single.id] = val
+            elif isinstance(single, (ast.Tuple, ast.List)) and isinstance(v, ast.Name) and v.id in env["pat"] and len(single.elts) == 3:
+                for r, e in zip(ROLES, single.elts):
+                    if isinstance(e, ast.Name):
+                        env["nn"][e.id] = not self.bound[r]
+            return env
+        if isinstance(s, ast.If):
+            f = self.fold(s.test, env)
+            if f is True:
+                return self.block(s.body, env)
+            if f is False:
+                return self.block(s.orelse, env)
+            tk, fk = self.facts(s.test, env)
+            et, ef = self.copy(env), self.copy(env)
+            et["passed"] |= tk
+            ef["passed"] |= fk
+            self.refine(s.test, True, et)
+            self.refine(s.test, False, ef)
+            return self.merge([self.block(s.body, et), self.block(s.orelse, ef)])
+        if isinstance(s, (ast.For, ast.AsyncFor)):
+            base = self.kill(self.copy(env), bound_names(s.target) | bound_names(s.body))
+            e2 = self.copy(base)
+            tgt = s.target
+            first = tgt.elts[0] if isinstance(tgt, (ast.Tuple, ast.List)) and tgt.elts else tgt
+            g = self.method_call(s.iter)
+            if isinstance(tgt, ast.Name) and self.ctxset(s.iter, env):
+                e2["passed"].add(tgt.id)
+                e2["dump"].add(tgt.id)
+            elif g is not None and self.is_generator(g) and isinstance(first, ast.Name):
+                recs = self.delegate(g, s.iter, env)  # type: ignore[arg-type]
+                if recs and all(r.ok for r in recs):
+                    self.records += recs
+                    e2["passed"].add(first.id)
+            self.block(s.body, e2)
+            if s.orelse:
+                return self.merge([self.copy(base), self.block(s.orelse, self.copy(base))])
+            return base
+        if isinstance(s, ast.While):
+            base = self.kill(self.copy(env), bound_names(s.body))
+            e2 = self.copy(base)
+            e2["passed"] |= self.facts(s.test, e2)[0]
+            self.block(s.body, e2)
+            if s.orelse:
+                return self.merge([self.copy(base), self.block(s.orelse, self.copy(base))])
+            return base
+        if isinstance(s, ast.Try) or type(s).__name__ == "TryStar":
+            out = self.block(s.body, self.copy(env))
+            if s.orelse and out is not None:
+                out = self.block(s.orelse, out)
+            hbase = self.kill(self.copy(env), bound_names(s.body))
+            outs = [out]
+            for h in s.handlers:
+                outs.append(self.block(h.body, self.kill(self.copy(hbase), {h.name} if h.name else set())))
+            res = self.merge(outs)
+            if s.finalbody:
+                res = self.block(s.finalbody, res if res is not None else hbase)
+            return res
+        if isinstance(s, (ast.With, ast.AsyncWith)):
+            return self.block(s.body, self.kill(env, bound_names([i.optional_vars for i in s.items if i.optional_vars is not None])))
+        # anything else: forget what it rebinds
+        return self.kill(env, bound_names(s))
+
+    def results(self) -> list[YieldRec]:
+        """one record per (shape, yield): justified iff justified on every path / from every delegating call"""
+        syn = getattr(self, "_synthetic", {})
+        out: dict[tuple[str, int], YieldRec] = {}
+        for r in self.records:
+            node = syn.get(id(r.node), r.node)
+            k = (r.shape, id(node))
+            if k not in out:
+                out[k] = YieldRec(node, r.shape, r.where, r.ok, r.why)
+            elif not r.ok and out[k].ok:
+                out[k].ok, out[k].why = False, r.why
+        return list(out.values())
+
+
+# --------------------------------------------------------------------------- i: the graph component a quad resolver hands back
+
+class NullScenario:
+    """Abstract execution of one function for the None-ness of its locals under a scenario: the parameters in `true_params` are
+    true, the parameter `quad` is a 4-tuple (not None, len() == 4).  Values are 'none' / 'nn' (not None) / 'maybe'.  An expression
+    that is not a local is 'nn' when its static type (mypy) is neither Optional nor Any, else 'maybe'.  `hits` are the returns whose
+    component `index` may be None."""
+
+    def __init__(self, fn: ast.FunctionDef, quad: Optional[str], true_params: set[str], index: int, type_of: Callable[[ast.AST], object],
+                 property_returns: Optional[Callable[[str], list]] = None):
+        self.fn, self.quad, self.true_params, self.index, self.type_of = fn, quad, true_params, index, type_of
+        # attribute name -> the expressions the getters of that property (in the receiver's class and every subclass) return, [] if it is
+        # not a property: an un-annotated property is `Any` to the type checker, what it returns is not
+        self.property_returns = property_returns
+        self.recv = receiver_name(fn)
+        self._in_prop: set[str] = set()
+        self.hits: list[tuple[ast.Return, str]] = []
+        self.n_returns = 0
+        st0: dict = {}
+        if quad:
+            st0[quad] = "nn"
+        for p in true_params:
+            st0[p] = "nn"
+        self.block(fn.body, [st0])
+
+    # -- values
+    @staticmethod
+    def join(a: str, b: str) -> str:
+        return a if a == b else "maybe"
+
+    def value(self, e: Optional[ast.expr], st: dict) -> str:
+        if e is None:
+            return "none"
+        if isinstance(e, ast.Constant):
+            return "none" if e.value is None else "nn"
+        if isinstance(e, ast.Name):
+            return st.get(e.id, "maybe")
+        if isinstance(e, (ast.Tuple, ast.List, ast.Dict, ast.Set, ast.JoinedStr, ast.ListComp, ast.SetComp, ast.DictComp, ast.GeneratorExp, ast.Lambda, ast.Compare)):
+            return "nn"
+        if isinstance(e, ast.IfExp):
+            out = None
+            for truth, arm in ((True, e.body), (False, e.orelse)):
+                for s2 in self.assume(e.test, truth, st):
+                    v = self.value(arm, s2)
+                    out = v if out is None else self.join(out, v)
+            return out or "maybe"
+        if isinstance(e, ast.BoolOp) and isinstance(e.op, ast.Or):
+            # the result is a truthy operand (not None) or the last operand
+            vs = [self.value(v, st) for v in e.values]
+            return "nn" if vs[-1] == "nn" else ("none" if all(v == "none" for v in vs) else "maybe")
+        if isinstance(e, ast.NamedExpr):
+            return self.value(e.value, st)
+        tf = self.type_of(e)
+        if tf is not None and not getattr(tf, "optional", True) and not getattr(tf, "any", True) and getattr(tf, "items", None):
+            return "nn"
+        if (self.property_returns is not None and isinstance(e, ast.Attribute) and isinstance(e.value, ast.Name) and e.value.id == self.recv
+                and e.attr not in self._in_prop):
+            rets = self.property_returns(e.attr)
+            if rets:
+                self._in_prop.add(e.attr)
+                try:
+                    vs = {self.value(r, {}) for r in rets}
+                finally:
+                    self._in_prop.discard(e.attr)
+                return "nn" if vs == {"nn"} else "maybe"
+        return "maybe"
+
+    # -- tests
+    def assume(self, t: ast.expr, truth: bool, st: dict) -> list[dict]:
+        """the states in which t can come out `truth` (refined), [] if it cannot"""
+        if isinstance(t, ast.UnaryOp) and isinstance(t.op, ast.Not):
+            return self.assume(t.operand, not truth, st)
+        if isinstance(t, ast.BoolOp):
+            conj = isinstance(t.op, ast.And)
+            if conj == truth:  # all operands come out `truth`
+                cur = [st]
+                for v in t.values:
+                    cur = [s2 for s1 in cur for s2 in self.assume(v, truth, s1)]
+                return cur
+            out: list[dict] = []  # the first i operands the other way, the next one `truth`
+            cur = [st]
+            for v in t.values:
+                out += [s2 for s1 in cur for s2 in self.assume(v, truth, s1)]
+                cur = [s2 for s1 in cur for s2 in self.assume(v, not truth, s1)]
+            return out
+        if isinstance(t, ast.Constant):
+            return [st] if bool(t.value) == truth else []
+        if isinstance(t, ast.Name):
+            if t.id in self.true_params:
+                return [st] if truth else []
+            v = st.get(t.id, "maybe")
+            if v == "none":
+                return [] if truth else [st]
+            if truth and v == "maybe":
+                return [dict(st, **{t.id: "nn"})]
+            return [st]
+        if isinstance(t, ast.Compare) and len(t.ops) == 1:
+            l, r, op = t.left, t.comparators[0], t.ops[0]
+            if isinstance(op, (ast.Is, ast.IsNot, ast.Eq, ast.NotEq)):
+                for a, b in ((l, r), (r, l)):
+                    if is_none_const(b) and not is_none_const(a):
+                        is_none = truth if isinstance(op, (ast.Is, ast.Eq)) else (not truth)
+                        v = self.value(a, st)
+                        if (v == "nn" and is_none) or (v == "none" and not is_none):
+                            return []
+                        if isinstance(a, ast.Name):
+                            return [dict(st, **{a.id: "none" if is_none else "nn"})]
+                        return [st]
+                    if isinstance(b, ast.Constant) and isinstance(b.value, bool) and isinstance(a, ast.Name) and a.id in self.true_params:
+                        same = b.value if isinstance(op, (ast.Is, ast.Eq)) else (not b.value)
+                        return [st] if same == truth else []
+            lc = _len_compare(t)
+            if lc is not None and isinstance(lc[0], ast.Name) and lc[0].id == self.quad:
+                _, cop, k = lc
+                res = {ast.Eq: 4 == k, ast.NotEq: 4 != k, ast.Lt: 4 < k, ast.LtE: 4 <= k, ast.Gt: 4 > k, ast.GtE: 4 >= k}.get(cop)
+                if res is not None:
+                    return [st] if res == truth else []
+        return [st]
+
+    # -- statements
+    def bind(self, target: ast.expr, value: Optional[ast.expr], st: dict) -> dict:
+        st = dict(st)
+        if isinstance(target, ast.Name):
+            st[target.id] = self.value(value, st) if value is not None else "maybe"
+            if isinstance(value, ast.Tuple) and len(value.elts) > self.index:
+                st[(target.id, self.index)] = self.value(value.elts[self.index], st)
+            else:
+                st.pop((target.id, self.index), None)
+        else:
+            for n in bound_names(target):
+                st[n] = "maybe"
+                st.pop((n, self.index), None)
+        return st
+
+    def block(self, stmts: list, states: list[dict]) -> list[dict]:
+        for s in stmts:
+            if not states:
+                break
+            nxt: list[dict] = []
+            for st in states:
+                for o in self.stmt(s, st):
+                    if o not in nxt:
+                        nxt.append(o)
+            states = nxt
+        return states
+
+    def stmt(self, s: ast.stmt, st: dict) -> list[dict]:
+        if isinstance(s, ast.Return):
+            self.n_returns += 1
+            v = s.value
+            comp = None
+            if isinstance(v, ast.Tuple) and len(v.elts) > self.index:
+                comp = self.value(v.elts[self.index], st)
+            elif isinstance(v, ast.Name) and (v.id, self.index) in st:
+                comp = st[(v.id, self.index)]
+            if comp != "nn" and not any(h[0] is s for h in self.hits):
+                self.hits.append((s, "component %d of `%s` %s" % (self.index, norm(s)[:60], "is None" if comp == "none" else "may be None" if comp else "is not tracked")))
+            return []
+        if isinstance(s, ast.Raise):
+            return []
+        if isinstance(s, ast.If):
+            return self.block(s.body, self.assume(s.test, True, st)) + self.block(s.orelse, self.assume(s.test, False, st))
+        if isinstance(s, ast.Assign):
+            for t in s.targets:
+                st = self.bind(t, s.value, st)
+            return [st]
+        if isinstance(s, ast.AnnAssign):
+            return [self.bind(s.target, s.value, st)] if s.value is not None else [st]
+        if isinstance(s, ast.Assert):
+            return self.assume(s.test, True, st)
+        if isinstance(s, (ast.For, ast.AsyncFor, ast.While)):
+            entry = dict(st)
+            for n in bound_names(s):
+                entry[n] = "maybe"
+                entry.pop((n, self.index), None)
+            self.block(s.body, [entry])
+            return self.block(s.orelse, [entry]) + [entry] if s.orelse else [entry]
+        if isinstance(s, ast.Try) or type(s).__name__ == "TryStar":
+            out = self.block(s.body, [st])
+            if s.orelse:
+                out = self.block(s.orelse, out)
+            h0 = dict(st)
+            for n in bound_names(s.body):
+                h0[n] = "maybe"
+                h0.pop((n, self.index), None)
+            for h in s.handlers:
+                out = out + self.block(h.body, [h0])
+            if s.finalbody:
+                out = self.block(s.finalbody, out)
+            return out
+        if isinstance(s, (ast.With, ast.AsyncWith)):
+            st = dict(st)
+            for n in bound_names([i.optional_vars for i in s.items if i.optional_vars is not None]):
+                st[n] = "maybe"
+            return self.block(s.body, [st])
+        if isinstance(s, (ast.Continue, ast.Break)):
+            return []
+        st = dict(st)
+        for n in bound_names(s):
+            st[n] = "maybe"
+            st.pop((n, self.index), None)
+        return [st]
+
+
+def quad_resolver(mod: Module, cls: str, entry: str) -> tuple[ast.FunctionDef, ast.Call, int]:
+    """The method of `cls` by which `entry` (a public write method: add) turns its triple-or-quad argument into (s, p, o, graph): the
+    call on the receiver whose result `entry` unpacks into four names, the last of which it hands to <receiver>.store.<entry>(...) as
+    the context.  Returns (resolver, the call, index of the graph component)."""
+    f = mod.func("%s.%s" % (cls, entry))
+    recv = receiver_name(f)
+    meths = mod.methods(cls)
+    store_call = is_store_call_of(recv or "self")
+    for n in own_nodes(f):
+        if not (isinstance(n, ast.Assign) and len(n.targets) == 1 and isinstance(n.targets[0], (ast.Tuple, ast.List)) and isinstance(n.value, ast.Call)):
+            continue
+        c = n.value
+        if not (isinstance(c.func, ast.Attribute) and isinstance(c.func.value, ast.Name) and c.func.value.id == recv and c.func.attr in meths):
+            continue
+        names = [e.id if isinstance(e, ast.Name) else None for e in n.targets[0].elts]
+        for sc in own_nodes(f):
+            if isinstance(sc, ast.Call) and store_call(sc) and sc.func.attr == entry:  # type: ignore[attr-defined]
+                ctx = [k.value for k in sc.keywords if k.arg == "context"] + list(sc.args[1:2])
+                if ctx and isinstance(ctx[0], ast.Name) and ctx[0].id in names:
+                    return meths[c.func.attr], c, names.index(ctx[0].id)
+    raise AnalysisError("%s.%s: the call that resolves the triple-or-quad argument into (s, p, o, graph) for the store was not found" % (cls, entry))
